@@ -239,3 +239,25 @@ def pristine(execute):
             rec.count(key, n)
         return out
     return wrapped
+
+
+class FdLeak(Exception):
+    pass
+
+
+def no_fd_leak(fn):
+    """decorator for function-style library calls (open, work, close inside one call): the number of open file
+    descriptors of the process must be the same afterwards; a call that leaves its file open makes a long job fail
+    with "too many open files" hundreds of calls later"""
+    import functools
+    import os
+
+    @functools.wraps(fn)
+    def wrapped(*a, **k):
+        n = len(os.listdir("/proc/self/fd"))
+        r = fn(*a, **k)
+        m = len(os.listdir("/proc/self/fd"))
+        if m != n:
+            raise FdLeak("the call left %d file descriptor(s) open" % (m - n))
+        return r
+    return wrapped
